@@ -383,13 +383,7 @@ Proof.
   rewrite Hk.
   destruct (extract_rule fact false) as [rule|e|w|]; try exact HP.
   destruct (add_hook_err s fact) as [e|].
-  - cbn [fst]. destruct rule as [r|]; [|exact HP].
-    destruct (is_scheduled r); [exact HP|].
-    destruct (st_add_mem_idx s id fact) as [s' e'] eqn:E.
-    apply st_add_mem_idx_spec in E. destruct E as (s2 & He & Hs').
-    revert HP. apply P_ext; try reflexivity.
-    + cbn. destruct e'; subst s'; cbn; apply He.
-    + cbn. destruct e'; subst s'; cbn; apply He.
+  - cbn [fst]. exact HP.
   - pose proof (P_st_add_mem_idx s id fact HP) as H1.
     destruct (st_add_mem_idx s id fact) as [s1 [e|]]; cbn [fst] in *; [exact H1|].
     apply P_store_call in H1.
